@@ -101,3 +101,18 @@ CHECKS["C15"] = {
         rapid_job("hostile", "./verifh/c15", "TestHostileRequests", 10000, 40000),
     ],
 }
+
+CHECKS["C01"] = {
+    "rule": ("rapid stateful sequences (1-30 calls) of Get/List/Set/Add/Update/Delete with independently drawn option subsets (update/more-update/reset masks, expected value/check, "
+             "expect-absent, create-if-absent, allow-missing, generated ids with seeded or colliding RNG, id interceptors, before/after interceptors, write time, writable/extra-writable/all-writable) "
+             "on a Value or Collection of TestAllTypes or a trait message, plus bounded-exhaustive short sequences; every call's result/error code, the full contents (Get of every id, sorted List) "
+             "and the backpressured event log are compared with a plain reference model. non-trivial = sequence with >=1 failing write and >=1 successful write combining >=2 options; "
+             "distinct by the (op, option set, outcome code) sequence"),
+    "assumptions": ["single caller", "id interceptors are idempotent", "update masks strictly broader than the writable fields are not generated (outcome left open by the contract)",
+                    "the message returned alongside an error is not compared"],
+    "jobs": [
+        rapid_job("value", "./verifh/c01", "TestValueSequences", 3000, 20000),
+        rapid_job("collection", "./verifh/c01", "TestCollectionSequences", 3000, 20000),
+        enum_job("exhaustive", "./verifh/c01", "TestExhaustiveShort", timeout={Q: 600, T: 3000}),
+    ],
+}
